@@ -8,6 +8,7 @@ import (
 	"math"
 	"os"
 	"sync"
+	"time"
 
 	wt "github.com/hnakamur/whispertool"
 )
@@ -71,9 +72,42 @@ type fetchResult struct {
 	S     Series
 }
 
+// viaShortAPI: for a third of the cases (chosen by the case's salt) calls that name no archive go through the
+// short entry points Fetch / Update / UpdateMany, which read the clock themselves: whispertool.Now is then
+// fixed at the call's clock, so that both routes must behave alike.
+func viaShortAPI(id int, now int64) (restore func(), ok bool) {
+	if id != -1 || now <= 0 || caseSalt()%3 != 1 {
+		return nil, false
+	}
+	saved := wt.Now
+	// the clock ticks one second per reading (a call that takes ONE reading, as it must, sees exactly `now`)
+	shortAPIReadings = shortAPIReadings[:0]
+	wt.Now = func() time.Time {
+		v := now + int64(len(shortAPIReadings))
+		shortAPIReadings = append(shortAPIReadings, v)
+		return time.Unix(v, 0)
+	}
+	return func() { wt.Now = saved }, true
+}
+
+// viaShortAPIWould tells whether a call with these arguments goes through the short API (no side effect).
+func viaShortAPIWould(id int, now int64) (struct{}, bool) {
+	return struct{}{}, id == -1 && now > 0 && caseSalt()%3 == 1
+}
+
+// shortAPIReadings are the clock values handed out during the latest call made through the short API.
+var shortAPIReadings []int64
+
 func fetchWT(db *wt.Whisper, id int, from, until, now int64) (r fetchResult) {
 	r.Panic = guard(func() {
-		ts, err := db.FetchFromArchive(id, wt.Timestamp(from), wt.Timestamp(until), wt.Timestamp(now))
+		var ts *wt.TimeSeries
+		var err error
+		if restore, ok := viaShortAPI(id, now); ok {
+			ts, err = db.Fetch(wt.Timestamp(from), wt.Timestamp(until))
+			restore()
+		} else {
+			ts, err = db.FetchFromArchive(id, wt.Timestamp(from), wt.Timestamp(until), wt.Timestamp(now))
+		}
 		if err != nil {
 			r.Err = err
 			return
@@ -94,7 +128,14 @@ func fetchWT(db *wt.Whisper, id int, from, until, now int64) (r fetchResult) {
 }
 
 func updateWT(db *wt.Whisper, id int, t int64, v float64, now int64) (err error, pm string) {
-	pm = guard(func() { err = db.UpdatePointForArchive(id, wt.Timestamp(t), wt.Value(v), wt.Timestamp(now)) })
+	pm = guard(func() {
+		if restore, ok := viaShortAPI(id, now); ok {
+			defer restore()
+			err = db.Update(wt.Timestamp(t), wt.Value(v))
+			return
+		}
+		err = db.UpdatePointForArchive(id, wt.Timestamp(t), wt.Value(v), wt.Timestamp(now))
+	})
 	return
 }
 
@@ -103,7 +144,14 @@ func batchWT(db *wt.Whisper, pts []MPoint, id int, now int64) (err error, pm str
 	for i, p := range pts {
 		ps[i] = wt.Point{Time: wt.Timestamp(p.T), Value: wt.Value(p.V)}
 	}
-	pm = guard(func() { err = db.UpdatePointsForArchive(ps, id, wt.Timestamp(now)) })
+	pm = guard(func() {
+		if restore, ok := viaShortAPI(id, now); ok {
+			defer restore()
+			err = db.UpdateMany(ps)
+			return
+		}
+		err = db.UpdatePointsForArchive(ps, id, wt.Timestamp(now))
+	})
 	return
 }
 
